@@ -23,6 +23,9 @@ def program_cases(tier, seed, pool):
         # a third of the programs do not start at 0: `.org N` (zero words before), so that an address taken
         # from the wrong counter (`pc`, relative distances) shows
         org = rng.choice([0, 0, 1, 16, rng.randrange(2, 300)])
+        if len(progs) % 40 == 7:
+            # a few programs far up in the flash: addresses that no longer fit 12, 15, 16 or 17 bits
+            org = rng.choice([0x7ff, 0x800, 0x1000, 0x7fff, 0x8000, 0xffff, 0x10000, 0x1ffff, 0x20000])
         if org:
             lines.append('.org %s' % E.num(org)); addr = org
         for _ in range(rng.randrange(2, 40)):
